@@ -128,9 +128,9 @@ def c04(tier, seed):
         elif tier == 'quick':
             shallow = typegen(run, [(1, False, ['E', 'A'], None)], 'g')
             deep = small(typegen(run, [(3, True, ['I', 'E'], 'num=10')], 's'), 2500)[:120]
-            plans = [('bfs1', shallow + deep, 1, False, 8, None, None),
-                     ('bfs2', shallow, 2, False, 1, None, None),
-                     ('bfs3', [c for c in shallow if c['depth'] == 0], 3, False, 1, None, None),
+            plans = [('bfs1', shallow + deep, 1, False, 4, None, None),
+                     ('bfs2', small(shallow, 900)[::3], 2, False, 1, None, None),
+                     ('bfs3', small([c for c in shallow if c['depth'] == 0], 420)[::4], 3, False, 1, None, None),
                      ('sim', shallow + deep, 10, True, 8, 'num=60', 11)]
             fx_max, fx_len = 150, 600
             fx_plans = [('fxbfs1', rewrite_cfg(1, False, 1), None, None),
